@@ -87,7 +87,10 @@ impl<'i> Iterator for Parser<'i> {
     fn next(&mut self) -> Option<Self::Item> {
         let res = self.parse_next();
         if res.is_err() {
+            // stop iterating after an error: drop the remaining input and whatever was
+            // still expected for the message the error occurred in
             self.input = &[];
+            self.pending_list_entries = 0;
         }
         match res {
             Ok(None) => None,
